@@ -407,13 +407,13 @@ macro_rules! selfret_cell {
 }
 selfret_cell!(cell_gs_all_clone_selfret, SImpAll, true, "group Gs {Clone,So,Sd} from a type enabling all: cast!(impl Clone), clone() the result, upcast the clone", |x| x.clone(), Clone);
 selfret_cell!(cell_gs_all_dup_selfret, SImpAll, true, "group Gs {Clone,So,Sd} from a type enabling all: cast!(impl Sd), sd_dup() on the result, upcast the returned object", |x| x.sd_dup(), Sd);
-selfret_cell!(cell_gs_all_clonedup_selfret, SImpAll, true, "group Gs {Clone,So,Sd} from a type enabling all: cast!(impl Clone + Sd), sd_dup() on the result, upcast the returned object", |x| x.sd_dup(), Clone + Sd);
+selfret_cell!(cell_gs_all_clonedup_selfret, SImpAll, true, "group Gs {Clone,So,Sd} from a type enabling all: cast!(impl So + Sd), sd_dup() on the result, upcast the returned object", |x| x.sd_dup(), So + Sd);
 selfret_cell!(cell_gs_noso_clone_selfret, SImpNoSo, false, "group Gs {Clone,So,Sd} from a type enabling {Clone,Sd}: cast!(impl Clone), clone() the result, upcast the clone", |x| x.clone(), Clone);
 selfret_cell!(cell_gs_noso_dup_selfret, SImpNoSo, false, "group Gs {Clone,So,Sd} from a type enabling {Clone,Sd}: cast!(impl Sd), sd_dup() on the result, upcast the returned object", |x| x.sd_dup(), Sd);
 """
 SELFRET_CELLS = [("cell_gs_all_clone_selfret", "Gs", ["Clone", "So", "Sd"], ["Clone"], "Box", "selfret", True),
                  ("cell_gs_all_dup_selfret", "Gs", ["Clone", "So", "Sd"], ["Sd"], "Box", "selfret", True),
-                 ("cell_gs_all_clonedup_selfret", "Gs", ["Clone", "So", "Sd"], ["Clone", "Sd"], "Box", "selfret", True),
+                 ("cell_gs_all_clonedup_selfret", "Gs", ["Clone", "So", "Sd"], ["So", "Sd"], "Box", "selfret", True),
                  ("cell_gs_noso_clone_selfret", "Gs", ["Clone", "Sd"], ["Clone"], "Box", "selfret", True),
                  ("cell_gs_noso_dup_selfret", "Gs", ["Clone", "Sd"], ["Sd"], "Box", "selfret", True)]
 
@@ -557,6 +557,97 @@ impl_syntax!(YsFwdAllTrail, cell_gy_fwd_all_trail_implsyntax, ({ Ya, Yb, Yc, }, 
 IMPLSYNTAX_CELLS = [('cell_gy_trail2_implsyntax', 'Gy', ['Ya', 'Yb'], ['Ya', 'Yb'], 'Box', 'implsyntax', True), ('cell_gy_trail1_implsyntax', 'Gy', ['Yc'], ['Yc'], 'Box', 'implsyntax', True), ('cell_gy_trail3_implsyntax', 'Gy', ['Ya', 'Yb', 'Yc'], ['Ya', 'Yb', 'Yc'], 'Box', 'implsyntax', True), ('cell_gy_unbraced_implsyntax', 'Gy', ['Yb'], ['Yb'], 'Box', 'implsyntax', True), ('cell_gy_empty_implsyntax', 'Gy', [], [], 'Box', 'implsyntax', True), ('cell_gy_plain2_implsyntax', 'Gy', ['Ya', 'Yc'], ['Ya', 'Yc'], 'Box', 'implsyntax', True), ('cell_gy_fwd_empty_implsyntax', 'Gy', ['Ya', 'Yb'], ['Ya', 'Yb'], 'Box+Fwd', 'implsyntax', True), ('cell_gy_fwd_part_implsyntax', 'Gy', ['Ya', 'Yb'], ['Ya', 'Yb'], 'Box+Fwd', 'implsyntax', True), ('cell_gy_fwd_more_implsyntax', 'Gy', ['Ya'], ['Ya'], 'Box+Fwd', 'implsyntax', True), ('cell_gy_fwd_trail_implsyntax', 'Gy', ['Ya', 'Yb'], ['Ya', 'Yb'], 'Box+Fwd', 'implsyntax', True), ('cell_gy_fwd_only_implsyntax', 'Gy', [], [], 'Box+Fwd', 'implsyntax', True), ('cell_gy_fwd_all_trail_implsyntax', 'Gy', ['Ya', 'Yb', 'Yc'], ['Ya', 'Yb', 'Yc'], 'Box+Fwd', 'implsyntax', True)]
 
 
+MIXED_SRC = r'''
+// ---- hand-written layout cells: built-in (external) traits mixed with user traits that sort AFTER them, in the mandatory and in
+//      the optional list: name order does not depend on where a trait is defined
+#[cglue_trait]
+pub trait Zeta { fn zeta(&self) -> u64; }
+#[cglue_trait]
+pub trait Omega { fn omega(&self) -> u64; }
+cglue_trait_group!(Gz, { Clone, Zeta }, { Debug, Omega });
+macro_rules! zimp {
+    ($t:ident, { $($en:ident),* }) => {
+        #[derive(Clone, Debug)]
+        pub struct $t(pub u64);
+        impl Zeta for $t { fn zeta(&self) -> u64 { self.0 * 10 + 1 } }
+        impl Omega for $t { fn omega(&self) -> u64 { self.0 * 10 + 2 } }
+        cglue_impl_group!($t, Gz, { $($en),* });
+    };
+}
+zimp!(ZBoth, { Debug, Omega });
+zimp!(ZDebug, { Debug });
+zimp!(ZOmega, { Omega });
+zimp!(ZNone, {});
+macro_rules! mixed_layout {
+    ($fname:ident, $t:ident, $has_debug:expr, $has_omega:expr, $ctx:expr) => {
+        pub fn $fname() -> Result<u64, (String, String)> {
+            use cglue::ext::core::clone::CloneVtblGet;
+            use cglue::ext::core::fmt::DebugVtblGet;
+            let what = format!("layout of group Gz {{Clone, Zeta}} + {{Debug, Omega}} built from {} ({} context)", stringify!($t), if $ctx { "CArc" } else { "no" });
+            let arc = ::std::sync::Arc::new(5u64);
+            let mut words: Vec<usize>;
+            let (clone_v, zeta_v): (usize, usize);
+            let mut debug_v = 0usize;
+            let mut omega_v = 0usize;
+            macro_rules! body {
+                ($g:ident) => {{
+                    words = words_of(&$g);
+                    clone_v = CloneVtblGet::get_vtbl(&$g) as *const _ as usize;
+                    zeta_v = ZetaVtblGet::get_vtbl(&$g) as *const _ as usize;
+                    if $g.zeta() != 71 { return Err(("layout:dispatch".into(), format!("{}: mandatory trait not callable", what))); }
+                    // one trait at a time: the check does not depend on the name of a combined conversion
+                    let mut g = $g;
+                    if $has_debug {
+                        let c = match cast!(g impl Debug) { Some(c) => c, None => return Err(("layout:cast".into(), format!("{}: cast to Debug failed", what))) };
+                        debug_v = DebugVtblGet::get_vtbl(&c) as *const _ as usize;
+                        if words_of(&c) != words { return Err(("layout:cast_bits".into(), format!("{}: cast changed the bit pattern of the object", what))); }
+                        g = c.upcast();
+                    }
+                    if $has_omega {
+                        let c = match cast!(g impl Omega) { Some(c) => c, None => return Err(("layout:cast".into(), format!("{}: cast to Omega failed", what))) };
+                        omega_v = OmegaVtblGet::get_vtbl(&c) as *const _ as usize;
+                        if c.omega() != 72 { return Err(("layout:dispatch".into(), format!("{}: Omega not callable", what))); }
+                        if words_of(&c) != words { return Err(("layout:cast_bits".into(), format!("{}: cast changed the bit pattern of the object", what))); }
+                        g = c.upcast();
+                    }
+                    if words_of(&g) != words { return Err(("layout:upcast_bits".into(), format!("{}: upcast changed the bit pattern of the object", what))); }
+                    drop(g);
+                }};
+            }
+            if $ctx {
+                let g = group_obj!(($t(7), cglue::arc::CArc::<u64>::from(arc.clone())) as Gz);
+                body!(g);
+            } else {
+                let g = group_obj!($t(7) as Gz);
+                body!(g);
+            }
+            let total = 4 + 2 + if $ctx { 3 } else { 0 };
+            if words.len() != total { return Err(("layout:size".into(), format!("{}: object is {} words, expected {} (4 vtable pointers + instance + context)", what, words.len(), total))); }
+            if clone_v == zeta_v || clone_v == 0 || zeta_v == 0 { return Err(("layout:vtbl_missing".into(), format!("{}: mandatory vtables not distinct", what))); }
+            if (words[0], words[1]) != (clone_v, zeta_v) {
+                return Err(("layout:vtbl_order".into(), format!("{}: the mandatory vtable pointers are not in name order [Clone, Zeta] (words {:#x} {:#x}; Clone {:#x}, Zeta {:#x})", what, words[0], words[1], clone_v, zeta_v)));
+            }
+            if (words[2], words[3]) != (debug_v, omega_v) {
+                return Err(("layout:vtbl_order".into(), format!("{}: the optional vtable pointers are not [Debug, Omega] in name order, null when not enabled (words {:#x} {:#x}; Debug {:#x}, Omega {:#x})", what, words[2], words[3], debug_v, omega_v)));
+            }
+            if words[4] == 0 || words[5] == 0 { return Err(("layout:instance".into(), format!("{}: the words after the vtable pointers are not the CBox", what))); }
+            if $ctx && (words[6] != ::std::sync::Arc::as_ptr(&arc) as usize || words[7] == 0 || words[8] == 0) { return Err(("layout:context".into(), format!("{}: the context does not follow the instance", what))); }
+            Ok(digest(&(words.len(), $has_debug, $has_omega)))
+        }
+    };
+}
+mixed_layout!(layout_gz_both_box_noctx, ZBoth, true, true, false);
+mixed_layout!(layout_gz_both_box_arc, ZBoth, true, true, true);
+mixed_layout!(layout_gz_debug_box_noctx, ZDebug, true, false, false);
+mixed_layout!(layout_gz_debug_box_arc, ZDebug, true, false, true);
+mixed_layout!(layout_gz_omega_box_noctx, ZOmega, false, true, false);
+mixed_layout!(layout_gz_omega_box_arc, ZOmega, false, true, true);
+mixed_layout!(layout_gz_none_box_noctx, ZNone, false, false, false);
+mixed_layout!(layout_gz_none_box_arc, ZNone, false, false, true);
+'''
+MIXED_LAYOUTS = [('layout_gz_both_box_noctx', 'Gz', ['Debug', 'Omega'], 'Box', False), ('layout_gz_both_box_arc', 'Gz', ['Debug', 'Omega'], 'Box', True), ('layout_gz_debug_box_noctx', 'Gz', ['Debug'], 'Box', False), ('layout_gz_debug_box_arc', 'Gz', ['Debug'], 'Box', True), ('layout_gz_omega_box_noctx', 'Gz', ['Omega'], 'Box', False), ('layout_gz_omega_box_arc', 'Gz', ['Omega'], 'Box', True), ('layout_gz_none_box_noctx', 'Gz', [], 'Box', False), ('layout_gz_none_box_arc', 'Gz', [], 'Box', True)]
+
+
 def family_crate(out_dir, crate, gname, mandatory_list, optional, aliases=None, containers=("Box", "Mut", "Ref"), fwd_of=None, extra=None):
     cells, layouts = [], []
     mand = mandatory_list[0] if len(mandatory_list) == 1 else None
@@ -572,6 +663,8 @@ def family_crate(out_dir, crate, gname, mandatory_list, optional, aliases=None, 
     if extra:
         parts.append(extra[0])
         cells.extend(extra[1])
+        if len(extra) > 2:
+            layouts.extend(extra[2])
     reg = ["pub fn cells() -> Vec<Cell> {", "    vec!["]
     for (fname, g, en, req, cont, op, expect) in cells:
         reg.append("        Cell { name: \"%s\", group: \"%s\", enabled: \"%s\", requested: \"%s\", container: \"%s\", op: \"%s\", expect: %s, run: %s }," % (
@@ -604,7 +697,7 @@ def main():
     # mandatory and optional traits declared out of name order
     add(family_crate(out_dir, "hg_gord", "Gord", ["Mb", "Ma"], ["Ob", "Oa"]))
     # trait names whose case-sensitive order differs from the case-folded one
-    add(family_crate(out_dir, "hg_gcase", "Gcase", ["Gm"], ["Tag", "TLB", "KeyDumper", "KVStore"][:3]))
+    add(family_crate(out_dir, "hg_gcase", "Gcase", ["Gm"], ["Tag", "TLB", "KeyDumper", "KVStore"][:3], extra=(MIXED_SRC, [], MIXED_LAYOUTS)))
     # 4-argument cglue_impl_group!: the Fwd<&mut T> wrapper enables a strict subset (all but the last) of what the type enables
     add(family_crate(out_dir, "hg_gfwd", "Gfwd", ["Fm"], ["Fa", "Fb"], fwd_of=lambda en: en[:-1], extra=(IMPLSYNTAX_SRC, IMPLSYNTAX_CELLS)))
     print("generated %d cast cells, %d layout cells" % tuple(tot))
